@@ -117,7 +117,8 @@ impl<T> DefList<T>
         }
         else
         {
-            Some(self.defs[item_ref.0].as_ref().unwrap())
+            // The slot may exist without being defined yet
+            self.defs[item_ref.0].as_ref()
         }
     }
 
